@@ -22,7 +22,8 @@
                                                                            types under the SAME map two levels in, the other values under the container
                                                                            formats one level in; alt: one key per line)
     types/format.go           formatContext.Subsequent → `Ind.ctxSubsequent`
-    types/objecttype.go       ObjectToString           → `fmtX (.obj …)` (line break, name, the init hash by Hash.ToString2 with `(`)
+    types/objecttype.go       ObjectToString           → `fmtX (.obj …)` (line break, name, the init hash by Hash.ToString2 with `(`; an instance
+                                                                           of an anonymous type: the line break, then the init hash as a Hash)
     types/hashtype.go         Hash.ToString2 (delim)   → `hashAssembleD` (the `(` form never takes the format's delimiter and writes no break)
     types/arraytype.go        isContainer              → `XVal.isContainer` (Array, Hash, object instances)
     px/format.go              GetFormat                → `getG` over a key system `KeySys κ`: ANY type of keys with an acceptance
@@ -254,14 +255,25 @@ def fmtX {κ : Type} (ks : KeySys κ) (io : FloatIO) (m : GMap κ) (ind : Ind) :
       typeFinish t.f [] body
   | .obj name es =>
     -- ObjectToString: the break of the context's indentation, the type name, InitHash().ToString2(…, '(')
-    let t := getG ks m (.obj name es)
     let body : Res :=
-      if t.f.letter = 'a' then
-        let ta := getG ks m (.array (es.map XEntry.arr))
-        if !isArrayLetter ta.f.letter then .reported .unsupported
-        else arrayOf ta.f ind (fmtEntryArrsX ks io (cfOfG ks ta) (arrayChildInd ta.f ind) es)
-      else if !isHashLetter t.f.letter then .reported .unsupported
-      else hashOf t.f ind true (fmtPairsX ks io m (cfOfG ks t) (hashChildInd t.f ind) es)
+      if name.isEmpty then
+        -- "Anonymous objects can't be written in constructor call form. They are instead written as a Hash": ih.ToString(b, s, g),
+        -- the Hash format of the map, `{`, and the Hash's own line break after the one written above
+        let t := getG ks m (.hash es)
+        if t.f.letter = 'a' then
+          let ta := getG ks m (.array (es.map XEntry.arr))
+          if !isArrayLetter ta.f.letter then .reported .unsupported
+          else arrayOf ta.f ind (fmtEntryArrsX ks io (cfOfG ks ta) (arrayChildInd ta.f ind) es)
+        else if !isHashLetter t.f.letter then .reported .unsupported
+        else hashOf t.f ind false (fmtPairsX ks io m (cfOfG ks t) (hashChildInd t.f ind) es)
+      else
+        let t := getG ks m (.obj name es)
+        if t.f.letter = 'a' then
+          let ta := getG ks m (.array (es.map XEntry.arr))
+          if !isArrayLetter ta.f.letter then .reported .unsupported
+          else arrayOf ta.f ind (fmtEntryArrsX ks io (cfOfG ks ta) (arrayChildInd ta.f ind) es)
+        else if !isHashLetter t.f.letter then .reported .unsupported
+        else hashOf t.f ind true (fmtPairsX ks io m (cfOfG ks t) (hashChildInd t.f ind) es)
     body.bind fun s => .text ((if ind.breaks then '\n' :: ind.padding else []) ++ name ++ s)
   | .array vs =>
     let t := getG ks m (.array vs)
